@@ -4,6 +4,22 @@ TRUST = ('trusted: CPython ast of /repo/pytenet/*.py, the NumPy/SciPy API classi
          'the frozen slot/leg/field tables transcribed from the docstrings (cross-checked against the code on every run)')
 
 CLAIMS = {
+    'C06': {
+        'technique': 'static analysis: constant folding of the operator tables of the model constructors (abstract interpretation with a constant / band / opaque-parameter domain), charge typing, adjoint closure of the folded local terms, Jordan-Wigner mode typing, affine index algebra, AST path rules',
+        'text': 'Decides the structural clauses of C06 for every L and every parameter value: each local operator of the six built-in '
+                'constructors has one well-defined charge under the physical quantum numbers, and the quantum numbers written next '
+                'to it (bond quantum numbers of the chain literals, node quantum numbers of the Ising automaton and of the linear '
+                'fermionic graph, both values of the creation flag) change by exactly that charge - necessary for block sparsity; '
+                'the local terms multiplying one parameter are Hermitian as they stand (necessary at L equal to the term length); '
+                'between the two fermionic factors of a hopping term every mode carries Z and no other mode anything but the '
+                'identity, and the linear fermionic operator applies identity / operator / Z left of, at and right of every site; '
+                'the shifting helper places each local chain once, as a fresh copy, at every admissible start (chains longer than '
+                'the lattice are left out); every parameter reaches a coefficient and the tables are complete.  The tables are '
+                'folded inside the analyser; no pytenet code runs.  Equality of the dense matrix with the documented formula '
+                '(numerical factors, signs of the documented terms) is not decided.',
+        'design_ref': 'DESIGN.md 15',
+        'note': TRUST + '; trusted: the constant folder sa/optable.py (own arithmetic on literals)',
+    },
     'C05': {
         'technique': 'static analysis: path-sensitive id typestate + coefficient taint/def-use + list-length algebra over the AST',
         'text': 'Decides the structural clauses of C05 for all inputs: ids are handed out once on every path of '
